@@ -101,6 +101,11 @@ pub fn candidates(prop: &str) -> Vec<Value> {
                 v.push(json!({"call": "elgamal", "group": g, "kind": kind}));
             }}
         }
+        "C08" => {
+            for g in ["G1", "G2"] { for s in [SignatureSchemes::Basic, SignatureSchemes::ProofOfPossession] { for (t, n) in [(2usize, 2usize), (2, 3), (3, 5), (5, 7)] { for kind in ["recombine", "partial_verify", "other_share", "too_few", "duplicate", "single", "empty", "mixed", "bad_params"] {
+                v.push(json!({"call": "shares", "group": g, "scheme": scheme_name(s), "t": t, "n": n, "kind": kind}));
+            }}}}
+        }
         "C10" => {
             for g in ["G1", "G2"] { for s in schemes() { for kind in ["complete", "other_challenge", "other_msg", "other_key", "tamper_u", "tamper_v", "ts_no_timeout", "ts_within", "ts_elapsed", "ts_altered", "ts_future", "ts_max"] {
                 v.push(json!({"call": "pok", "group": g, "scheme": scheme_name(s), "kind": kind}));
@@ -127,6 +132,7 @@ pub fn run(c: &Value) -> Option<String> {
         "aggregate" => by_group!(c, aggregate),
         "multi" => by_group!(c, multi),
         "pok" => by_group!(c, pok),
+        "shares" => by_group!(c, shares),
         "elgamal" => by_group!(c, elgamal),
         "thr_signcrypt" => by_group!(c, thr_signcrypt),
         "timelock" => by_group!(c, timelock),
@@ -553,5 +559,44 @@ fn elgamal<C: BlsSignatureImpl + PartialEq + Copy>(c: &Value, keys: &[SecretKey<
             }
             if t.verify(pk).is_ok() { Some(format!("{}: altered proof accepted", kind)) } else { None }
         }
+    }
+}
+
+fn shares<C: BlsSignatureImpl + PartialEq + Copy>(c: &Value, keys: &[SecretKey<C>]) -> Option<String> {
+    use rand_core::SeedableRng;
+    let s = scheme_of(&c["scheme"]);
+    let t = c["t"].as_u64().unwrap() as usize; let n = c["n"].as_u64().unwrap() as usize;
+    let sk = &keys[3]; let pk = sk.public_key();
+    let m = b"threshold message".to_vec();
+    let rng = || rand_chacha::ChaCha20Rng::from_seed([9u8; 32]);
+    let kind = c["kind"].as_str().unwrap();
+    if kind == "bad_params" {
+        for (tt, nn) in [(0usize, 3usize), (1, 3), (4, 3), (2, 256)] { if sk.split_with_rng(tt, nn, rng()).is_ok() { return Some(format!("split accepted threshold {} of {}", tt, nn)); } }
+        return None;
+    }
+    let sh = match sk.split_with_rng(t, n, rng()) { Ok(x) => x, Err(e) => return Some(format!("split({}, {}) failed: {}", t, n, e)) };
+    let ps: Vec<SignatureShare<C>> = sh.iter().map(|x| x.sign(s, &m).unwrap()).collect();
+    let pks: Vec<PublicKeyShare<C>> = sh.iter().map(|x| x.public_key().unwrap()).collect();
+    let whole = sk.sign(s, &m).ok()?;
+    match kind {
+        "recombine" => {
+            // every window of t consecutive shares, and all n
+            for start in 0..=(n - t) { let w = start..start + t;
+                if SecretKey::<C>::combine(&sh[w.clone()]).ok()? != *sk { return Some("t shares do not recombine to the key".into()); }
+                if PublicKey::<C>::from_shares(&pks[w.clone()]).ok()? != pk { return Some("public-key shares do not recombine to the public key".into()); }
+                let sg = Signature::<C>::from_shares(&ps[w.clone()]).ok()?;
+                if Vec::<u8>::from(&sg) != Vec::<u8>::from(&whole) { return Some("partial signatures do not recombine byte-for-byte to the whole-key signature".into()); }
+            }
+            let mut rev = ps.clone(); rev.reverse();
+            if Signature::<C>::from_shares(&rev).ok()? != whole { return Some("recombination depends on share order".into()); }
+            None
+        }
+        "partial_verify" => { for i in 0..n { if let Err(e) = ps[i].verify(&pks[i], &m) { return Some(format!("partial signature {} rejected by its own key share: {}", i + 1, e)); } } None }
+        "other_share" => if ps[0].verify(&pks[1], &m).is_ok() { Some("partial signature accepted by another participant's key share".into()) } else { None },
+        "too_few" => { if t > 2 { if let Ok(k) = SecretKey::<C>::combine(&sh[..t - 1]) { if k == *sk { return Some("fewer than t shares yielded the key".into()); } } if let Ok(sg) = Signature::<C>::from_shares(&ps[..t - 1]) { if sg == whole { return Some("fewer than t partial signatures yielded the signature".into()); } } } None }
+        "duplicate" => { let d = vec![ps[0], ps[0]]; if Signature::<C>::from_shares(&d).is_ok() { Some("duplicated share accepted".into()) } else { None } }
+        "single" => if Signature::<C>::from_shares(&ps[..1]).is_ok() { Some("single share accepted".into()) } else { None },
+        "empty" => { let r = crate::guarded(|| Signature::<C>::from_shares(&[]).is_ok()); match r { Ok(true) => Some("empty share set accepted".into()), Ok(false) => None, Err(p) => Some(format!("empty share set panicked: {}", p)) } }
+        _ => { let other = if s == SignatureSchemes::Basic { SignatureSchemes::ProofOfPossession } else { SignatureSchemes::Basic }; let mut x = ps.clone(); x[n - 1] = sh[n - 1].sign(other, &m).unwrap(); if Signature::<C>::from_shares(&x).is_ok() { Some("mixed-scheme shares accepted".into()) } else { None } }
     }
 }
